@@ -28,7 +28,14 @@ class Dispatcher(object):
         self.net, self.w = net, world
         self.state = "idle"
 
+    fail_connect = False
+
     def connect(self, endpoint):
+        if self.fail_connect:
+            # the attempt fails before anything asynchronous is running (unresolvable host name: asyncore's connect raises socket.gaierror)
+            self.fail_connect = False
+            self.w.log.append("dispatcher.connect-refused")
+            raise OSError(-2, "Name or service not known")
         self.w.log.append("dispatcher.connect")
         self.state = "connecting"
         self.w.wire = []                 # what is written to THIS connection
@@ -250,13 +257,28 @@ EVENTS = ("keys-upload-result", "handshake-done", "handshake-failed", "late-clos
           "stream-error-other", "ping-tick", "pong")
 
 
-def h_history(ctx, n, prefix=(), real_noise=False):
+EXTRA_EVENTS = ("connect-refused-at-once", "app-ping", "app-pong", "stale-pong")
+
+
+def h_history(ctx, n, prefix=(), real_noise=False, extra=()):
     reconnect_opt = ctx.flag("reconnect_option")
     st, w, net, disp, app, iq, iqmod = build(reconnect_opt, real_noise)
 
     if ctx.flag("unconfirmed_prekeys_at_start"):
         # one-time keys generated earlier whose upload was never confirmed: the next login is passive, uploads them and reboots the connection
         st.getProp("profile").axolotl_manager.unsent = [ST.StubPreKey(21), ST.StubPreKey(22)]
+
+    # the two ways an application asks for a connection: the interface layer's connect(), or the connect event broadcast to the stack
+    # (what the library's own demo applications do)
+    by_event = ctx.flag("connect_requests_by_event") if extra else False
+
+    def connect():
+        if by_event:
+            from yowsup.layers import YowLayerEvent
+            from yowsup.layers.network import YowNetworkLayer
+            st.broadcastEvent(YowLayerEvent(YowNetworkLayer.EVENT_STATE_CONNECT))
+        else:
+            app.connect()
 
     def pending_upload():
         ids = [hooks.dict_get(x.attributes, "id") for x in w.sent_nodes if getattr(x, "tag", None) == "iq" and x.getChild("list") is not None]
@@ -270,15 +292,21 @@ def h_history(ctx, n, prefix=(), real_noise=False):
     def transport():
         return not real_noise or w.noise._wa_noiseprotocol.state == w.NM.WANoiseProtocol.STATE_TRANSPORT
     N = SC.N()
-    g = dict(up=False, pending=False, authed=False, outstanding=[], expect_reconnect=False, upload_open=False)       # ghost model
+    g = dict(up=False, pending=False, authed=False, outstanding=[], expect_reconnect=False, upload_open=False, app_pings=[], stale=[])       # ghost model
     obs = []
     hist = []
     for step in range(n):
         # guards: which events can occur now
         possible = []
-        for e in EVENTS:
-            if e == "connect-request" and not (disp.state in ("up", "connecting")):
+        for e in EVENTS + tuple(extra):
+            if e in ("connect-request", "connect-refused-at-once") and not (disp.state in ("up", "connecting")):
                 possible.append(e)
+            elif e == "app-ping" and disp.state == "up" and g["authed"] and transport() and len(g["app_pings"]) < 1:
+                possible.append(e)      # the application pings the server itself (the command line client's /ping)
+            elif e == "app-pong" and disp.state == "up" and g["app_pings"]:
+                possible.append(e)
+            elif e == "stale-pong" and disp.state == "up" and transport() and g["stale"]:
+                possible.append(e)      # the answer to a ping of an earlier connection arrives late (request registries survive a reconnect)
             elif e == "late-close-callback" and disp.state == "idle" and g.get("ever"):
                 possible.append(e)      # a dispatcher reporting the close of an already closed socket once more (both real dispatchers can)
             elif e == "connected" and disp.state == "connecting":
@@ -313,9 +341,26 @@ def h_history(ctx, n, prefix=(), real_noise=False):
         n_ent = len(app.entities)
         n_up = len([x for x in w.sent_nodes if getattr(x, "tag", None) == "iq" and x.getChild("list") is not None])
         n_sent = len(w.sent_nodes)
+        raised = None
         if ev == "connect-request":
-            app.connect()
+            connect()
             g["pending"] = True
+            g["refused_open"] = False
+        elif ev == "connect-refused-at-once":
+            disp.fail_connect = True
+            try:
+                connect()
+            except Exception as e:
+                raised = e
+            g["refused_open"] = True
+        elif ev == "app-ping":
+            from yowsup.layers.protocol_iq.protocolentities import PingIqProtocolEntity
+            app.toLower(PingIqProtocolEntity())
+            g["app_pings"] += [hooks.dict_get(x.attributes, "id") for x in w.sent_nodes[n_sent:] if getattr(x, "tag", None) == "iq"][-1:]
+        elif ev == "app-pong":
+            inject(N("iq", {"id": g["app_pings"].pop(0), "type": "result", "from": "s.whatsapp.net"}))
+        elif ev == "stale-pong":
+            inject(N("iq", {"id": g["stale"].pop(0), "type": "result", "from": "s.whatsapp.net"}))
         elif ev == "keys-upload-result":
             inject(N("iq", {"id": pending_upload(), "type": "result", "from": "s.whatsapp.net"}))
             g["upload_open"] = False
@@ -381,6 +426,12 @@ def h_history(ctx, n, prefix=(), real_noise=False):
         if ev == "pong":
             g["outstanding"] = []
             obs.append((tag + ": an answered ping never closes the connection", "dispatcher.disconnect" not in new))
+        if ev == "connect-request":
+            obs.append((tag + ": a connect request while no connection exists or is being made reaches the dispatcher", new.count("dispatcher.connect") == 1))
+        if ev == "connect-refused-at-once":
+            obs.append((tag + ": the refused attempt is reported to the caller", raised is not None))
+        if ev in ("app-pong", "stale-pong"):
+            obs.append((tag + ": the answer to a ping that is not the keep-alive's outstanding one closes nothing", "dispatcher.disconnect" not in new))
         if closes or keepalive_timeout:
             was_up = g["up"]
             if was_up:
@@ -391,8 +442,12 @@ def h_history(ctx, n, prefix=(), real_noise=False):
             # the confirmed key upload of a passive login ends that login: the connection is re-established once, as an active login
             will_reconnect = (reconnect_opt and ev in ("stream-error-ack", "stream-error-other")) or ev == "keys-upload-result"
             obs.append((tag + ": automatic reconnect iff (stream error, not a conflict, option on) or end of a passive key-upload login", (new.count("dispatcher.connect") == 1) == will_reconnect))
-            g.update(up=False, authed=False, outstanding=[], pending=will_reconnect, upload_open=False)
+            g["stale"] = (g["stale"] + g["outstanding"] + g["app_pings"])[-2:]
+            g.update(up=False, authed=False, outstanding=[], pending=will_reconnect, upload_open=False, app_pings=[])
             obs.append((tag + ": connection is closed", disp.state != "up" or will_reconnect is None))
+        elif g.get("refused_open") and downs == 1:
+            # the attempt that was refused synchronously is reported as a failed attempt by a later close callback: at most once, like any failed attempt
+            g["refused_open"] = False
         else:
             obs.append((tag + ": no spurious disconnected announcement", downs == 0))
         if ev == "success":
@@ -426,6 +481,15 @@ def cases(tier):
     for third in ("handshake-done", "socket-error", "peer-close", "disconnect-request", "handshake-failed"):
         cs.append(dict(name="noise-layer-history[prefix=up+%s,len<=%d]" % (third, 7 if q else 10), fn=h_history, args=(7 if q else 10, up + (third,), True), max_paths=2000000,
                        timeout_s=900 if q else 3400, keep_samples=6, weight=100))
+    # further environment events on top: a connect attempt refused synchronously; the application's own pings and late answers to pings of
+    # an earlier connection next to the keep-alive's
+    cs.append(dict(name="history+[refused connect attempts,len<=%d]" % (5 if q else 7), fn=h_history, args=(5 if q else 7, (), False, ("connect-refused-at-once",)), max_paths=2000000,
+                   timeout_s=900 if q else 3400, keep_samples=8, weight=100))
+    cs.append(dict(name="history+[prefix=up+success+ping-tick,foreign pongs,len<=%d]" % (7 if q else 9), fn=h_history, args=(7 if q else 9, up + ("success", "ping-tick"), False, ("app-ping", "app-pong", "stale-pong")),
+                   max_paths=2000000, timeout_s=900 if q else 3400, keep_samples=8, weight=150))
+    cs.append(dict(name="history+[prefix=up+success+ping-tick+peer-close+up+success,foreign pongs,len<=%d]" % (10 if q else 12), fn=h_history,
+                   args=(10 if q else 12, up + ("success", "ping-tick", "peer-close") + up + ("success",), False, ("app-ping", "app-pong", "stale-pong")),
+                   max_paths=2000000, timeout_s=900 if q else 3400, keep_samples=8, weight=150))
     if not q:
         for fourth in ("ping-tick", "peer-close", "stream-error-ack", "disconnect-request"):
             cs.append(dict(name="history[prefix=up+success+%s,len<=11]" % fourth, fn=h_history, args=(11, up + ("success", fourth)), max_paths=4000000, timeout_s=3400, keep_samples=6, weight=400))
